@@ -163,3 +163,57 @@ Theorem model_passes_unit_specs :
   (forall m t d, spec_nets (FSet m t d) (model_nets (FSet m t d)) = true).
 Proof. exact Proofs.C44.model_passes_unit_specs. Qed.
 Print Assumptions model_passes_unit_specs.
+
+(* ---------- resolution HISTORIES on ONE Config object ----------
+   [run_hist e c0 steps] runs resolveNetworks alone (HNets), the resolution stage of ReadConfig
+   (HResolve) or ReadConfig itself on a freshly parsed flag set (HRead) one after the other on a
+   Config that starts as c0 (any pre-populated content).  [step_select s] is what the closure in
+   resolveNetworks computes from the flag set of step s alone. *)
+
+(* history = map: after EVERY step, for every initial Config and every earlier step, the Ethereum
+   and the Bitcoin network are the pair of the network selected by THAT step *)
+Theorem history_networks_are_map : forall e steps c0, forallb flagged steps = true ->
+  map (fun o => (c_eth (h_cfg o), c_btc (h_cfg o))) (run_hist e c0 steps) =
+  map (fun s => (net_eth (fst (step_select s)), net_btc (fst (step_select s)))) steps.
+Proof. exact Proofs.C44.hist_networks_are_map. Qed.
+Print Assumptions history_networks_are_map.
+
+(* the last selection decides both networks: the last observation of a history is the step run on
+   whatever state the earlier steps left, and its networks are the pair of its own selection *)
+Theorem last_selection_wins : forall e c0 steps s, flagged s = true ->
+  forall o, last (run_hist e c0 (steps ++ [s])) o =
+            hstep_run e (last (map h_cfg (run_hist e c0 steps)) c0) s /\
+  (c_eth (h_cfg (last (run_hist e c0 (steps ++ [s])) o)), c_btc (h_cfg (last (run_hist e c0 (steps ++ [s])) o)))
+  = (net_eth (fst (step_select s)), net_btc (fst (step_select s))).
+Proof. exact Proofs.C44.last_selection_wins. Qed.
+Print Assumptions last_selection_wins.
+
+(* as written, a pre-populated (or earlier resolved) network pair is overwritten: it has no
+   influence on the outcome of a step *)
+Theorem prepopulated_networks_overwritten : forall e c eth btc s, flagged s = true ->
+  hstep_run e {| c_eth := eth; c_btc := btc; c_peers := c_peers c; c_electrum := c_electrum c;
+                 c_contracts := c_contracts c |} s = hstep_run e c s.
+Proof. exact Proofs.C44.prepopulated_networks_overwritten. Qed.
+Print Assumptions prepopulated_networks_overwritten.
+
+(* the executable per-step property evaluated on the observed Config before / after a step implies
+   the statement: one network pair, the one selected at this step; what the Config (HNets,
+   HResolve) or the sources (HRead) hold explicitly is kept, what was unset is unset or the
+   default of this step's network *)
+Theorem hstep_ok_sound : forall e pre s o, hstep_ok e pre s o = true -> hstep_prop e pre s o.
+Proof. exact Proofs.C44.hstep_ok_sound. Qed.
+Print Assumptions hstep_ok_sound.
+
+Theorem hist_ok_sound : forall e steps obs c0, hist_ok e c0 steps obs = true ->
+  length obs = length steps /\
+  forall k s o, nth_error steps k = Some s -> nth_error obs k = Some o ->
+    hstep_prop e (match k with O => c0 | S j => match nth_error obs j with Some p => h_cfg p | None => c0 end end) s o.
+Proof. exact Proofs.C44.hist_ok_sound. Qed.
+Print Assumptions hist_ok_sound.
+
+(* ... and it holds of every model history, from every initial Config *)
+Theorem model_history_passes_spec : forall e steps c0, env_wfb e = true ->
+  forallb (hstep_wfb e) steps = true -> length (c_contracts c0) = length (e_contracts e) ->
+  hist_ok e c0 steps (run_hist e c0 steps) = true.
+Proof. exact Proofs.C44.model_history_passes_spec. Qed.
+Print Assumptions model_history_passes_spec.
